@@ -202,6 +202,13 @@ def run(ctx):
                      shapes='ShapesAll', methods=NONBURES, moves=('swap',), emitmod=1 if thorough else 3,
                      moveemitmod=2 if thorough else 8)
         ctx.sample({'run': 'stacks3', 'vector': next(o for o in r.iter_emitted() if isinstance(o, dict) and o.get('t') == 'v')})
+        # 2b. stacks in which exactly ONE RDM is degenerate for the method (zero vector / constant vector):
+        #     all entries between two non-degenerate RDMs are demanded, the others are not
+        dm = ('cosine', 'corr', 'spearman', 'kendall', 'cosine_cov', 'corr_cov')
+        for nc_ in (3, 4):
+            run_grid(ctx, pool, f'degenerate{nc_}', nc_, None, voff=1, vspan=3, vecs='DegVecs', movevecs='DegVecs',
+                     shapes='ShapesDeg', methods=dm if (thorough or nc_ == 3) else ('cosine', 'spearman', 'corr_cov'),
+                     moves=(), degenerate=True, emitmod=1 if thorough else 3)
         # 3. n_cond = 4
         if thorough:
             t = C.grid_size(4, 0, 2, NONBURES, nvecsb=81)
